@@ -741,6 +741,9 @@ func (g *Gen) electPhase() {
 // isolated and both sides campaign.
 func (g *Gen) confMacro() {
 	s := g.S
+	if len(s.DownReps()) > 0 && chance(g.Ch, 60, "restartfirst") {
+		g.restartAll()
+	}
 	lead := s.Leader()
 	if lead == nil {
 		g.Rounds(3*s.P.ElectionTick, nil)
@@ -935,6 +938,9 @@ func (g *Gen) restartAll() {
 // then let a lagging / fresh replica be caught up, which needs MsgSnap.
 func (g *Gen) snapshotCatchup() {
 	s := g.S
+	if len(s.DownReps()) > 0 && chance(g.Ch, 60, "restartfirst") {
+		g.restartAll()
+	}
 	lead := s.Leader()
 	if lead == nil {
 		g.Rounds(2*s.P.ElectionTick, nil)
